@@ -65,7 +65,7 @@ func dhx(b []byte) string  { return hex.EncodeToString(b) }
 func dbi(v int64) *big.Int { return big.NewInt(v) }
 
 // delegationRuleText / delegationAssumptions extend the run's rule and assumptions
-const delegationRuleText = " DELEGATION PHASE (counters and shapes prefixed deleg_): one case = one history of 40-70 real transactions (delegate, unDelegate, withdraw, claimRewards, reDelegateRewards, changeServiceFee) against one delegation contract with 3-5 delegators plus the owner on a metachain test node; an epoch change registers rewards through EpochStartSystemSCProcessor.ProcessDelegationRewards. Histories with an even index never undelegate a whole stake, so no account is ever without active fund (the known stale-checkpoint shape cannot occur and every reward epoch is checked for exactness); odd histories allow it. Shape of a reward epoch: (#delegators, fee class, reward class, dust, all active)."
+const delegationRuleText = " DELEGATION PHASE (counters and shapes prefixed deleg_): one case = one history of 40-70 real transactions (delegate, unDelegate, withdraw, claimRewards, reDelegateRewards, changeServiceFee) against one delegation contract with 3-5 delegators plus the owner on a metachain test node; an epoch change registers rewards through EpochStartSystemSCProcessor.ProcessDelegationRewards. Histories with an even index never undelegate a whole stake, so no account is ever without active fund (the known stale-checkpoint shape cannot occur and every reward epoch is checked for exactness); odd histories allow it. About every eighth step starts a scripted scenario: \"late joiner\" (rewards registered for a new epoch, then a brand-new address delegates in the same epoch, then old and new delegators claim in this and the next epoch; a new delegator must have nothing claimable) or \"staggered unbond\" (undelegations in consecutive epochs, withdraw while only the oldest fund has matured; unbond period 1-3 epochs written into the stored configuration). Shape of a reward epoch: (#delegators, fee class, reward class, dust, all active)."
 
 func delegationAssumptions() []string {
 	return []string{
@@ -90,6 +90,8 @@ type delegHistory struct {
 	received, claimed, redelegated *big.Int
 	reFunded                       bool
 	stopped                        bool
+	nFresh                         int
+	unbond                         uint32
 }
 
 func (h *delegHistory) logf(f string, a ...interface{}) { h.log = append(h.log, fmt.Sprintf(f, a...)) }
@@ -181,11 +183,19 @@ func exactOwnerShare(R *big.Int, fee int64) *big.Int {
 }
 
 // rewardEpoch advances the epoch, registers rewards through the real epoch-start processor and applies oracle (a)
-func (h *delegHistory) rewardEpoch(rng *vk.Rand, s *delegSnap) {
+func (h *delegHistory) rewardEpoch(rng *vk.Rand, s *delegSnap, f *delegPlanned) {
 	e := h.e
-	e.Epoch += uint32(1 + rng.Intn(2)*rng.Intn(2))
+	inc := uint32(1 + rng.Intn(2)*rng.Intn(2))
+	none := rng.Intn(5) == 0
+	if f != nil {
+		inc = 1
+		if f.amt >= 0 {
+			none = f.amt == 0
+		}
+	}
+	e.Epoch += inc
 	e.SetHeader()
-	if rng.Intn(5) == 0 {
+	if none {
 		h.logf("epoch -> %d, no rewards", e.Epoch)
 		h.r.Count("deleg_op:epoch/ok", 1)
 		return
@@ -201,6 +211,9 @@ func (h *delegHistory) rewardEpoch(rng *vk.Rand, s *delegSnap) {
 		R, rclass = big.NewInt(0).Mul(dbi(int64(1+rng.Intn(1000000))), big.NewInt(0).Exp(dbi(10), dbi(int64(12+rng.Intn(10))), nil)), "egld-scale"
 	default:
 		R, rclass = dbi(int64(rng.Intn(1000000))), "medium"
+	}
+	if f != nil && f.amt > 0 {
+		R, rclass = dbi(f.amt), "medium"
 	}
 	before := map[string]*big.Int{}
 	allActive := s.total.Sign() > 0
@@ -308,6 +321,106 @@ func (h *delegHistory) rewardEpoch(rng *vk.Rand, s *delegSnap) {
 	}
 }
 
+// delegPlanned is one step of a scripted scenario woven into the random history
+type delegPlanned struct {
+	op   int    // operation selector value
+	user []byte // caller
+	amt  int64  // delegate value / unDelegate amount / rewards of the epoch (epoch: -1 random, 0 none)
+}
+
+const (
+	dOpDelegate   = 0
+	dOpUnDelegate = 5
+	dOpWithdraw   = 8
+	dOpClaim      = 9
+	dOpEpoch      = 1000
+)
+
+func (h *delegHistory) freshUser() []byte {
+	u := bytes.Repeat([]byte{byte(0x70 + h.nFresh)}, 32)
+	h.e.Mint(u, dbi(1_000_000_000_000))
+	h.users = append(h.users, u)
+	h.uname[string(u)] = fmt.Sprintf("f%d", h.nFresh)
+	h.nFresh++
+	return u
+}
+
+// schedule returns a scripted scenario: "late joiner" (rewards are registered for a new epoch, a brand-new
+// address delegates in that same epoch, old and new delegators claim in this and the next epoch) or
+// "staggered unbond" (one delegator undelegates in consecutive epochs, then withdraws while only the
+// oldest funds have matured).
+func (h *delegHistory) schedule(rng *vk.Rand, snap *delegSnap) []delegPlanned {
+	var plan []delegPlanned
+	active := func() [][]byte {
+		var cand [][]byte
+		for _, u := range h.users {
+			if a := snap.active[string(u)]; a != nil && a.Sign() > 0 {
+				cand = append(cand, u)
+			}
+		}
+		return cand
+	}
+	if rng.Chance(2, 3) && h.nFresh < 8 {
+		h.r.Count("deleg_scenario:late-joiner", 1)
+		old := func() []byte {
+			c := active()
+			if len(c) == 0 {
+				return h.owner
+			}
+			return c[rng.Intn(len(c))]
+		}
+		nu := h.freshUser()
+		return []delegPlanned{
+			{op: dOpEpoch, amt: int64(1000 + rng.Intn(1000000))},
+			{op: dOpDelegate, user: nu, amt: int64(100 + rng.Intn(3000))},
+			{op: dOpClaim, user: old()},
+			{op: dOpClaim, user: nu},
+			{op: dOpEpoch, amt: int64(1000 + rng.Intn(1000000))},
+			{op: dOpClaim, user: nu},
+			{op: dOpClaim, user: old()},
+		}
+	}
+	h.r.Count("deleg_scenario:staggered-unbond", 1)
+	var d []byte
+	for _, u := range h.users[1:] {
+		if a := snap.active[string(u)]; a != nil && a.Cmp(dbi(900)) >= 0 {
+			d = u
+		}
+	}
+	if d == nil {
+		d = h.freshUser()
+		plan = append(plan, delegPlanned{op: dOpDelegate, user: d, amt: int64(1000 + rng.Intn(500))})
+	}
+	k := 3 + rng.Intn(2)
+	for i := 0; i < k; i++ {
+		if i > 0 {
+			plan = append(plan, delegPlanned{op: dOpEpoch, amt: -1})
+		}
+		plan = append(plan, delegPlanned{op: dOpUnDelegate, user: d, amt: int64(100 + rng.Intn(60))})
+	}
+	for i := k - 1; i < int(h.unbond); i++ {
+		plan = append(plan, delegPlanned{op: dOpEpoch, amt: -1})
+	}
+	plan = append(plan, delegPlanned{op: dOpWithdraw, user: d}, delegPlanned{op: dOpEpoch, amt: -1}, delegPlanned{op: dOpWithdraw, user: d}, delegPlanned{op: dOpClaim, user: d})
+	return plan
+}
+
+// setUnBondPeriod writes UnBondPeriodInEpochs into the contract's stored configuration (the test node
+// hard-codes 1 epoch)
+func (h *delegHistory) setUnBondPeriod(p uint32) {
+	m := integrationTests.TestMarshalizer
+	st := h.e.Storage(h.sc)
+	cfg := &ssc.DelegationConfig{}
+	if m.Unmarshal(cfg, st[ssc.VerifDelegationConfigKey]) != nil {
+		return
+	}
+	cfg.UnBondPeriodInEpochs = p
+	if b, err := m.Marshal(cfg); err == nil {
+		h.e.PatchStorage(h.sc, []byte(ssc.VerifDelegationConfigKey), b)
+		h.unbond = p
+	}
+}
+
 // runDelegationPhase is called from main between the pure-function phase and Finish
 func runDelegationPhase(r *vk.Run) {
 	_ = logger.SetLogLevel("*:NONE")
@@ -377,14 +490,29 @@ func runDelegationHistory(r *vk.Run, i int) {
 		h.users = append(h.users, u)
 		h.uname[string(u)] = fmt.Sprintf("d%d", k)
 	}
+	h.unbond = 1
+	h.setUnBondPeriod([]uint32{1, 2, 3}[rng.Intn(3)])
 	snap := h.snapshot()
 	steps := 40 + rng.Intn(31)
-	for step := 0; step < steps && !h.stopped; step++ {
+	var plan []delegPlanned
+	for step := 0; (step < steps || len(plan) > 0) && !h.stopped; step++ {
 		e.Nonce++
 		e.SetHeader()
+		if len(plan) == 0 && step < steps && rng.Chance(1, 8) {
+			plan = h.schedule(rng, snap)
+		}
+		var f *delegPlanned
+		if len(plan) > 0 {
+			f = &delegPlanned{}
+			*f = plan[0]
+			plan = plan[1:]
+		}
 		op := rng.Intn(20)
+		if f != nil {
+			op = f.op
+		}
 		if op >= 14 {
-			h.rewardEpoch(rng, snap)
+			h.rewardEpoch(rng, snap, f)
 			if h.stopped {
 				return
 			}
@@ -422,6 +550,9 @@ func runDelegationHistory(r *vk.Run, i int) {
 			if rng.Chance(1, 8) {
 				value = dbi(int64(1000 + rng.Intn(100000)))
 			}
+			if f != nil {
+				u, value = f.user, dbi(f.amt)
+			}
 		case op <= 7:
 			name = "unDelegate"
 			u = pick(hasActive, 11, 12)
@@ -448,6 +579,9 @@ func runDelegationHistory(r *vk.Run, i int) {
 			if amt.Sign() <= 0 {
 				amt = dbi(1)
 			}
+			if f != nil {
+				u, amt = f.user, dbi(f.amt)
+			}
 			dataField = "unDelegate@" + dhx(amt.Bytes())
 		case op == 8:
 			name, dataField = "withdraw", "withdraw"
@@ -467,6 +601,9 @@ func runDelegationHistory(r *vk.Run, i int) {
 			}
 			dataField = "changeServiceFee@" + dhx(dbi(nf).Bytes())
 			value = dbi(nf) // carried to the bookkeeping below, the transaction value stays 0
+		}
+		if f != nil && f.user != nil {
+			u = f.user
 		}
 		un := h.uname[string(u)]
 		txValue := value
@@ -510,6 +647,18 @@ func runDelegationHistory(r *vk.Run, i int) {
 			if _, had := snap.records[string(u)]; (name == "delegate" || name == "reDelegateRewards") && had && snap.active[string(u)].Sign() == 0 && h.received.Sign() > 0 {
 				h.reFunded = true
 				r.Count("deleg_refund_of_emptied_delegator_after_rewards", 1)
+			}
+			// a brand-new delegator has earned nothing yet, whatever was registered for the current epoch
+			if _, had := snap.records[string(u)]; name == "delegate" && !had {
+				r.Eval(1)
+				r.Count("deleg_new_delegator_checks", 1)
+				if h.received.Sign() > 0 {
+					r.Count("deleg_new_delegator_joined_after_rewards", 1)
+				}
+				if c := h.claimable(u); c == nil || c.Sign() != 0 {
+					h.viol(keyOverOther, fmt.Sprintf("new delegator %s joined in epoch %d and is immediately credited %v for rewards distributed before he had any stake", un, e.Epoch, c), nil)
+					return
+				}
 			}
 		}
 		snap = h.snapshot()
